@@ -329,5 +329,13 @@ fn main() {
             std::process::exit(2);
         }
     }
+    let flaky = guard::flaky();
+    if !flaky.is_empty() {
+        rep.bounds.insert("non_reproducing_failures".into(), json!(flaky));
+        if rep.stats.violations.is_empty() {
+            println!("MACHINERY-ERROR: property={} {} failure(s) did not reproduce on re-execution and no violation was confirmed; first: {}", rep.property, flaky.len(), flaky[0]);
+            std::process::exit(2);
+        }
+    }
     rep.finish();
 }
